@@ -45,6 +45,9 @@ func c18Log() logqlengine.EvalParams {
 
 var c18Scenarios = []c18Scenario{
 	{name: "log-3", n: 3, query: `{}`, params: c18Log()},
+	// one container: its lines still form several streams (msg is a label), which the engine returns in map order
+	{name: "log-1", n: 1, query: `{}`, params: c18Log()},
+	{name: "count-1", n: 1, query: `count_over_time({}[2s])`, params: c18Range()},
 	{name: "count-3", n: 3, query: `count_over_time({}[2s])`, params: c18Range()},
 	{name: "sumby-3", n: 3, query: `sum by (container_image) (count_over_time({}[2s]))`, params: c18Range()},
 	{name: "binop-2", n: 2, query: `sum by (container) (count_over_time({}[2s])) * sum by (container) (count_over_time({} |= "m"[4s]))`, params: c18Range()},
